@@ -228,8 +228,12 @@ struct HLive : Harness {
     // observed); k-means, the simplex and the MLR validation have small caps of their own (largest observed ratio 23), so a hang there
     // is declared after 2000 x a regular call instead of 20000 x - a quick run must be able to afford several of them
     bool nipals = c.rt == T_PCA || c.rt == T_PLS || c.rt == T_CPCA;
-    uint64_t B = (nipals ? 20000ULL : 2000ULL) * calib + 1000000ULL;
-    if (B > (nipals ? 2000000000ULL : 400000000ULL)) B = nipals ? 2000000000ULL : 400000000ULL;
+    // (100000 x for NIPALS since the tied-eigenvalues class: a regular call can converge in one or two sweeps, a capped one makes 10000 per component)
+    uint64_t B = (nipals ? 100000ULL : 2000ULL) * calib + 1000000ULL;
+    if (B > (nipals ? 10000000000ULL : 400000000ULL)) B = nipals ? 10000000000ULL : 400000000ULL;
+    // a regular call can be so cheap (one sweep, no worker thread) that no multiple of it covers a legitimately capped run of 10000 sweeps per
+    // component with thread creation charged at 5000 steps: the NIPALS budget never goes below what 6 capped components on 3 processors can cost
+    if (nipals && B < 6000000000ULL) B = 6000000000ULL;
     if (p.has("budget_override")) B = p.getu("budget_override");
     // the degenerate call
     CallArg deg{&c, false};
@@ -331,7 +335,12 @@ struct HLive : Harness {
         for (auto &b : c.blocks) { PreArg pb{&b, c.scaling, {}}; sim_guard(call_preprocess, &pb); double m = sqrt((double)b[0].size()); for (int i = 0; i < c.n; i++) for (double v : pb.E[i]) Ec[i].push_back((LD)v / m); }
         LD gap = 0; size_t rank = lrank(Ec, 1e-9L, &gap);
         size_t ncomp_eff = deg.varexp.size();
-        bool clear = (gap > 1e5L) || rank == std::min(Ec.size(), Ec[0].size());
+        // "numerical rank" has to be unambiguous: the same count at a tolerance of 1e-9 and of 1e-5 (a direction at 1e-8 of the leading one -
+        // e.g. what imperfect centring of perturbed data leaves behind - is neither clearly a component nor clearly noise)
+        LD gap5 = 0; size_t rank5 = lrank(Ec, 1e-5L, &gap5);
+        bool clear = ((gap > 1e5L) || rank == std::min(Ec.size(), Ec[0].size())) && rank5 == rank;
+        if (getenv("HLIVE_DEBUG")) { for (auto &b : c.blocks) { fprintf(stderr, "block %zux%zu:", b.size(), b[0].size()); for (auto &r : b) { fprintf(stderr, " {"); for (double v : r) fprintf(stderr, "%a,", v); fprintf(stderr, "}"); } fprintf(stderr, "\n"); } }
+        if (getenv("HLIVE_DEBUG")) { fprintf(stderr, "CPCA oracle: rank=%zu gap=%.3Lg dims=%zux%zu\n", rank, gap, Ec.size(), Ec[0].size()); for (auto &r : Ec) { for (LD v : r) fprintf(stderr, " %.20Lg", v); fprintf(stderr, "\n"); } }
         if (!clear) o.counters["skipped.rank_ambiguous"]++;
         else for (size_t k = 0; k < ncomp_eff && !o.violation; k++) {
           if (k < rank) {
@@ -358,7 +367,7 @@ struct HLive : Harness {
     o.sched_sig = p.getu("data.seed");
     return o;
   }
-  int minimise_budget(const std::string &cls) override { return cls.compare(0, 15, "non-termination") == 0 ? 16 : 100; }  // every rerun of a hang costs a full budget
+  int minimise_budget(const std::string &cls) override { return cls.compare(0, 15, "non-termination") == 0 ? 5 : 100; }  // every rerun of a hang costs a full budget
   static size_t a_size(const std::vector<double> &v) { return v.size(); }
 
   std::vector<Plan> shrink(const Plan &p) override {
